@@ -35,6 +35,13 @@ package telemetry
 //@   ensures d.modefile == "" ==> result0 == "off" && result1.IsZero()
 //@   ensures $fsops == old($fsops)
 //@   assumes result0 == $mode && result1 == $asof
+// How the text SetModeAsOf writes ("<mode> <date>") is read back: the mode file is
+// what is read, the trimmed text is split at its first space, and what follows the
+// space is parsed as a date in the layout SetModeAsOf formats it with.
+//@   at call ReadFile#1: assert arg0 == d.modefile
+//@   at call TrimSpace#1: assert arg0 == string(data)
+//@   at call Index#1: assert arg0 == mode && arg1 == " "
+//@   at call Parse#1: assert arg0 == "2006-01-02" && arg1 == mode[idx+1:]
 //@   modifies nothing
 
 //@ contract Dir.SetMode
